@@ -24,6 +24,24 @@ type ctxEval struct {
 	c *Ctx
 	// Leaf names a value that ends the walk ("" = not a leaf).
 	Leaf func(v ssa.Value, stack []*ssa.Call) string
+	// busy / memo: a value being described (a loop-carried merge meets itself)
+	// and the descriptions already computed, per value and call stack
+	busy map[ctxKey]bool
+	memo map[ctxKey]string
+}
+
+type ctxKey struct {
+	v     ssa.Value
+	depth int
+	top   *ssa.Call
+}
+
+func mkCtxKey(v ssa.Value, stack []*ssa.Call) ctxKey {
+	k := ctxKey{v: v, depth: len(stack)}
+	if len(stack) > 0 {
+		k.top = stack[len(stack)-1]
+	}
+	return k
 }
 
 const ctxEvalDepth = 40
@@ -46,6 +64,27 @@ func (e *ctxEval) desc(v ssa.Value, stack []*ssa.Call, d int) string {
 	if d > ctxEvalDepth {
 		return "other"
 	}
+	if _, isC := v.(*ssa.Const); !isC {
+		k := mkCtxKey(v, stack)
+		if s, ok := e.memo[k]; ok {
+			return s
+		}
+		if e.busy[k] {
+			return "loop" // the value feeds itself round a loop
+		}
+		if e.busy == nil {
+			e.busy, e.memo = map[ctxKey]bool{}, map[ctxKey]string{}
+		}
+		e.busy[k] = true
+		s := e.desc1(v, stack, d)
+		delete(e.busy, k)
+		e.memo[k] = s
+		return s
+	}
+	return e.desc1(v, stack, d)
+}
+
+func (e *ctxEval) desc1(v ssa.Value, stack []*ssa.Call, d int) string {
 	if e.Leaf != nil {
 		if s := e.Leaf(v, stack); s != "" {
 			return s
